@@ -611,6 +611,37 @@ fn eval_case_x(prop: &str, case: &Case, oracles: &[Oracle], st: &mut Stats, dept
             }
           }
         }
+        // the same truth table for the subscriptions to inner observables (window / group_by): such a
+        // subscription ends when it has seen a terminal or was unsubscribed itself - not because the
+        // outer one was unsubscribed, nor because the operator let go of the inner subject
+        {
+          let mut flagged: Vec<u32> = vec![];
+          for (step, lives) in real.inner_live.iter().enumerate() {
+            for (irec, live) in lives {
+              if flagged.contains(irec) {
+                continue;
+              }
+              let saw_terminal = real.events.iter().any(|e| e.rec == *irec && e.step <= step && e.ev.is_terminal());
+              // (an unsubscribe that is enumerated before the inner observable exists is a no-op)
+              let unsubscribed = case.acts.iter().enumerate().take(step + 1).any(|(ai, a)| {
+                if let Act::InnerUnsub(r, k) = a {
+                  rec_id(*r) + *k == *irec && real.inner_live.get(ai).map_or(false, |l| l.iter().any(|x| x.0 == *irec))
+                } else {
+                  false
+                }
+              });
+              let ended = saw_terminal || unsubscribed;
+              if *live == ended {
+                flagged.push(*irec);
+                st.add_finding(
+                  format!("{}/inner-is_subscribed-{}", locus(p), if *live { "true-after-end" } else { "false-while-live" }),
+                  format!("after step {} the subscription to inner observable #{} reads is_subscribed()={} but it {}", step, irec, live, if ended { "has ended" } else { "has seen no terminal and was not unsubscribed" }),
+                  shown.clone(),
+                );
+              }
+            }
+          }
+        }
       }
       Oracle::Teardown => {
         if !p.ops().iter().all(|o| o.has_functional_reference()) {
